@@ -92,6 +92,7 @@ func main() {
 		for _, n := range append(v1.derivedNotes(), v2.derivedNotes()...) {
 			fmt.Println("derived:", n)
 		}
+		fmt.Println("added product packages:", v1.AddedProduct, v2.AddedProduct)
 		dumpFuncs(v1, *dump)
 		dumpFuncs(v2, *dump)
 		return
